@@ -620,6 +620,15 @@ fn run_bytes(case: &Value) -> Value {
 }
 
 fn run(case: &Value) -> Value {
+    // C38: `reps` > 0 runs the instance that many times in this process
+    if let Some(reps) = case["reps"].as_u64() {
+        if case["k"] != "bytes" {
+            let mut inner = case.clone();
+            inner.as_object_mut().unwrap().remove("reps");
+            let runs: Vec<Value> = (0..reps).map(|_| run(&inner)).collect();
+            return json!({ "runs": runs });
+        }
+    }
     match case["k"].as_str().unwrap_or("") {
         "hook" => run_hook(case),
         "tick" => run_tick(case),
